@@ -200,9 +200,9 @@ def real_framer(ctx: Ctx):
     counts = {"a maximum-size packet between two small ones": 3}
     # every packet of the file is a packet: the idle APID 2047 (with and without secondary header), APID 0, telecommand type,
     # and neighbours that repeat a sequence count
-    mixed = [ccsds_bytes(b"a", apid=1, count=5), ccsds_bytes(b"b", apid=1, count=5), ccsds_bytes(b"cc", apid=2047, count=0),
-             ccsds_bytes(b"d", apid=2047, shf=1, count=0), ccsds_bytes(b"e", apid=0, type=1, count=7), ccsds_bytes(b"f", apid=0, type=1, count=7),
-             ccsds_bytes(b"gg", apid=2047, count=16383)]
+    mixed = [ccsds_bytes(b"a", apid=1, count=5, flags=1), ccsds_bytes(b"b", apid=1, count=5, flags=0), ccsds_bytes(b"cc", apid=2047, count=0),
+             ccsds_bytes(b"d", apid=2047, shf=1, count=0), ccsds_bytes(b"e", apid=0, type=1, count=7, flags=2), ccsds_bytes(b"f", apid=0, type=1, count=7),
+             ccsds_bytes(b"gg", apid=2047, count=16383, flags=1)]       # also segments (flags 01 / 00 / 10): listed and shown like any packet
     cases["idle, telecommand and repeated-count packets"] = b"".join(mixed)
     counts["idle, telecommand and repeated-count packets"] = len(mixed)
     cases["only idle packets"] = mixed[2] + mixed[6]
@@ -227,6 +227,11 @@ def real_framer(ctx: Ctx):
             continue
         nrows = sum(1 for r in rec.rows if not all(x == "..." for x in r))
         want_rows = npk if npk <= MAX_SPEC else 2 * HEAD_SPEC
+        if kind == "ok" and nrows == want_rows and name == "a maximum-size packet between two small ones":
+            # the listed length field of the largest packet is 65535 (all 16 bits of the field)
+            if not any(str(x) == "65535" for x in rec.rows[1]):
+                ctx.refuted("R19.4", site + "::length column", f"the row of a packet with a 65536-byte data field shows {tuple(str(x) for x in rec.rows[1])}; "
+                            f"its length field is 65535", where=where(fi, fi.node))
         ctx.decide(kind == "ok" and nrows == want_rows, "R19.4", site, f"{nrows} rows",
                    f"describe-packets{' with DEBUG logging' if dbg else ''} on a file with {name}: {'ends in ' + str(got) if kind != 'ok' else str(nrows) + ' rows'}; "
                    f"expected a listing of {npk} packets without a traceback", where=where(fi, fi.node))
